@@ -372,6 +372,10 @@ def gen_methods(mod, n, rng, profile="c"):
             ps = [(nm, t) for nm, t in ps if t[0] not in ("oref", "oopt")] + []
         r = ret(self_kind == "ref")
         write = rng.random() < 0.15 and (r[0] == "unit" or (r[0] == "res" and r[1][0] == "unit"))
+        if i == 0:
+            r, write = ("unit",), True                       # every bridge has write-out methods of both shapes
+        elif i == 1:
+            r, write = ("res", ("unit",), rng.choice([("enum", rng.choice(enums)), prim()])), True
         methods.append({"name": f"m{i}", "self": self_kind, "params": ps, "ret": r, "write": write,
                         "rets": [mod.rand_value(r) for _ in range(3)] if r[0] not in ("orefret", "orefopt") else [None, None, None]})
     return methods
@@ -743,19 +747,23 @@ def cpp_driver(mod, methods, calls):
 
 
 def cpp_scenarios(mod, methods, rng, per_method=3):
-    """like scenarios(), plus invalid UTF-8 in directly passed &str / Box<str> parameters (must be rejected on the C++ side)"""
+    """like scenarios(), plus, for every directly passed &str parameter position of every method, one call with invalid
+    UTF-8 in exactly that position (must be rejected on the C++ side, whatever the other arguments are)"""
     calls = scenarios(mod, methods, rng, per_method)
     bad = [[0xFF, 0x61], [0xC3], [0xED, 0xA0, 0x80], [0x61, 0xF4, 0x90, 0x80, 0x80], [0xC0, 0xAF]]
-    for call in calls:
-        m = call["m"]
+    for m in methods:
         idx = [i for i, (_, t) in enumerate(m["params"]) if t[0] == "str" and t[1] == "utf8" and t[2] == "ref"]
-        if idx and rng.random() < 0.35:
-            call["args"][rng.choice(idx)] = rng.choice(bad)
-            call["invalid_utf8"] = True
+        for i in idx:
+            args = [mod.rand_value(t) for _, t in m["params"]]
+            args[i] = rng.choice(bad)
+            calls.append({"m": m, "sel": 0, "self": rng.randrange(1, 10**6) if m["self"] else None, "args": args, "invalid_utf8": True})
     return calls
 
 
 def expected_cpp(mod, call):
     if call.get("invalid_utf8"):
         return "", "UTF8ERR", None
-    return expected(mod, call)
+    log, ret, wr = expected(mod, call)
+    if wr is not None and ret.startswith("E("):
+        wr = None          # diplomat::result<std::string, E>: the string only exists in the Ok arm
+    return log, ret, wr
